@@ -17,7 +17,7 @@ SeqEv = z3.SeqSort(Ev)
 
 EVENT_KINDS = [
     "Cond", "Truth", "Cap", "Body", "ErrF", "ErrC", "Msg", "Await", "PreBlock", "CapBlock", "PostBlock", "Viol",
-    "Inv", "Reg", "Op", "Visit", "ReprCond", "CollapseInv", "MemberFn", "MemberProp", "AddInvChecks", "TypeNew", "DbcNamespace",
+    "Inv", "Reg", "Op", "Visit", "ReprCond", "CollapseInv", "MemberFn", "MemberProp", "AddInvChecks", "TypeNew", "DbcNamespace", "ReprV", "Recompute", "Inspect", "ReprBlock",
 ]
 EK = {k: i + 1 for i, k in enumerate(EVENT_KINDS)}
 
